@@ -488,3 +488,18 @@ fn gen_garbage(rng: &mut Rng, request: bool) -> (Vec<u8>, &'static str) {
         }
     }
 }
+
+/// `Generated/Wire.lean`: the protocol constants as the code defines them.
+pub fn generated() -> Option<(&'static str, String)> {
+    let (ver, max) = axmosdb::verif::wire_constants();
+    let mut s = String::new();
+    s.push_str("/- REGENERATED on every run by `axh extract` from values evaluated out of /repo. Do not edit. -/\n");
+    s.push_str("import AxVerif.Model.Wire\n");
+    s.push_str("namespace AxVerif.Generated\n\n");
+    s.push_str(&format!(
+        "def wireParams : AxVerif.Wire.Params := {{ protocolVersion := {}, maxMessageSize := {} }}\n",
+        ver, max
+    ));
+    s.push_str("\nend AxVerif.Generated\n");
+    Some(("Wire.lean", s))
+}
